@@ -601,3 +601,25 @@ def c19_one_to_one(world, rec, acc, ctx):
             acc.violation('merge-leaves-integration-branches',
                           'PR #%d merged by %s(%s) but %s remain' % (
                               p['id'], rec['kind'], rec['arg'], left), wit)
+
+
+def c10_no_phantom_hold(world, rec, acc, ctx):
+    """the outcome depends only on the state of the repository and of the
+    pull request: a dependency / unknown-command outcome needs a comment on
+    THAT pull request that asks for it"""
+    st = rec['status']
+    if st not in ('AfterPullRequest', 'IncorrectPullRequestNumber'):
+        return
+    pr = evaluated_pr(world, rec)
+    if pr is None:
+        return
+    acc.count('c10_dependency_outcomes_checked')
+    texts = [t for (u, t) in rec['before'].comments.get(pr['id'], [])
+             if u != ROBOT]
+    if not any('after_pull_request' in t for t in texts):
+        acc.violation(
+            'dependency-outcome-without-dependency-comment',
+            'PR #%d: %s(%s) -> %s although no comment on that pull request '
+            'mentions after_pull_request (comments: %s)' % (
+                pr['id'], rec['kind'], rec['arg'], st,
+                [t[:40] for t in texts]), witness(world, rec))
